@@ -2,6 +2,7 @@
 
 All analyses work on the JSON facts written by extractor/ — nothing here runs rivia code.
 """
+import re
 from collections import defaultdict, deque
 
 
@@ -51,6 +52,12 @@ class Body:
         self._pdom = None
         self._defs = None
         self.infeasible = set()   # (bb, target) edges pruned as infeasible (NeverErr / constant switch)
+        # closure environment field index -> captured variable path (e.g. 1 -> 'm.follow')
+        self.upvar_names = {}
+        for u in b.get('upvar_debug', []):
+            m = re.match(r'^([A-Za-z_][A-Za-z_0-9]*)=\(\(?\*?_1\)?\.(\d+): ', u)
+            if m:
+                self.upvar_names[int(m.group(2))] = m.group(1).replace('__', '.')
 
     def reset(self):
         self._succ = {}
